@@ -34,8 +34,21 @@ Local Open Scope list_scope.
 Inductive family := FUniform | FLogUniform | FGaussian | FLogGaussian.
 Inductive form := FDict | FPickle | FDb.
 Inductive err := ETypeError | EAttributeError.
+Definition is_loggaussian (f : family) : bool := match f with FLogGaussian => true | _ => false end.
 Inductive outcome (A : Type) := Ok (a : A) | Err (e : err).
 Arguments Ok {A}. Arguments Err {A}.
+
+(* Which of the proposed repairs (proposed_fixes/C08-*.diff) the modelled code contains.  The pinned
+   tree has none of them; [cfg_current] is what the correspondence check runs. *)
+Record cfg := mkcfg {
+  fix_db_id : bool;          (* C08-db-prior-id: Prior rows store prior.id instead of prior.id_ (= message.id_) *)
+  fix_loggaussian : bool;    (* C08-dict-loggaussian: LogGaussianPrior.dict writes mean and sigma *)
+  fix_chain : bool;          (* C08-db-chained-assertion: Compound rows accept CompoundAssertion *)
+  fix_falsy : bool           (* C08-dict-falsy-constant: the "dict" branch of from_dict keeps falsy values *)
+}.
+Definition cfg_pinned := mkcfg false false false false.
+Definition cfg_fixed := mkcfg true true true true.
+Definition cfg_current := cfg_pinned.
 
 Definition bind {A B} (x : outcome A) (f : A -> outcome B) : outcome B :=
   match x with Ok a => f a | Err e => Err e end.
@@ -43,6 +56,7 @@ Definition bind {A B} (x : outcome A) (f : A -> outcome B) : outcome B :=
 Section C08.
   Variable V : Type.
   Variable falsy : V -> bool.          (* Python truthiness of a float: `not value` *)
+  Variable cf : cfg.
 
   Record pspec := mkspec {
     ps_fam : family; ps_lo : V; ps_hi : V;
@@ -179,16 +193,18 @@ Section C08.
 
   (* ---------- database ---------- *)
   Definition db_prior (p : nat) (sp : pspec) (st : unit) : outcome ((nat * pspec) * unit) :=
-    match ps_mid sp with
-    | Some m => Ok ((m, with_mid sp (Some m)), st)     (* cls(kw-arguments) with id_ = the stored message id *)
-    | None => Err EAttributeError                        (* getattr(model, "id_") on a message without id_ *)
-    end.
+    if fix_db_id cf then Ok ((p, with_mid sp (Some p)), st)
+    else match ps_mid sp with
+         | Some m => Ok ((m, with_mid sp (Some m)), st)     (* cls(kw-arguments) with id_ = the stored message id *)
+         | None => Err EAttributeError                        (* getattr(model, "id_") on a message without id_ *)
+         end.
 
   Definition is_and (a : assertion) : bool := match a with AAnd _ _ => true | _ => false end.
 
   Definition db_pre (n : snode) : option err :=
     match n with
-    | SNode _ _ asr => if existsb is_and asr then Some EAttributeError else None   (* compound.left on a CompoundAssertion *)
+    | SNode _ _ asr =>
+        if negb (fix_chain cf) && existsb is_and asr then Some EAttributeError else None   (* compound.left on a CompoundAssertion *)
     | _ => None
     end.
 
@@ -211,16 +227,15 @@ Section C08.
     match alookup p (d_loaded st) with
     | Some r => Ok (r, st)
     | None =>
-        match ps_fam sp with
-        | FLogGaussian => Err ETypeError               (* dict() has no mean/sigma: __init__ missing arguments *)
-        | _ => let q := d_next st in
-               let sp' := with_mid sp (Some q) in
-               Ok ((q, sp'), mkd (d_loaded st ++ [(p, (q, sp'))]) (S q))
-        end
+        if is_loggaussian (ps_fam sp) && negb (fix_loggaussian cf)
+        then Err ETypeError                            (* dict() has no mean/sigma: __init__ missing arguments *)
+        else let q := d_next st in
+             let sp' := with_mid sp (Some q) in
+             Ok ((q, sp'), mkd (d_loaded st ++ [(p, (q, sp'))]) (S q))
     end.
 
   Definition dict_filter (items : list (string * V)) : list (string * V) :=
-    filter (fun kv => negb (falsy (snd kv))) items.
+    if fix_falsy cf then items else filter (fun kv => negb (falsy (snd kv))) items.
 
   Definition no_priors (n : snode) : bool := match walk V (tree n) with [] => true | _ => false end.
 
@@ -398,7 +413,7 @@ Definition view_ok (o : obs) : bool :=
   && list_eqb Nat.eqb (ordered_ids float n) (o_ids o)
   && ival_eqb (inst_from_paths float fbin n (o_pv o)) (o_inst o).
 
-Definition frt := rt float ffalsy.
+Definition frt := rt float ffalsy cfg_current.
 
 (* every step is checked against the model started from the PREVIOUS OBSERVED state *)
 Fixpoint check_steps (prev : fsnode) (l : list step) : bool :=
